@@ -372,6 +372,9 @@ func (conv *converter) localDefine(assign *ast.AssignStmt) {
 	if !ok {
 		panic(conv.errorf(fn.Body.List[0], "expected a return statement, found %T", fn.Body.List[0]))
 	}
+	if len(stmt.Results) != 1 {
+		panic(conv.errorf(stmt, "expected a return statement with a result"))
+	}
 	var params []string
 	for _, field := range fn.Type.Params.List {
 		if len(field.Names) == 0 {
